@@ -987,3 +987,73 @@ def gen_twopath(seed: int, tier: str = "quick") -> Dict[str, Any]:
           "config": cfg, "feats": {"twopath": True}}
     repair_cycles(sc, rng)
     return sc
+
+
+# ---------------------------------------------------------------------------------
+# another family the random generator rarely hits: a source reaches a simulator over two *trigger*
+# paths of different length whose delays differ - the path with fewer hops is not the one with the
+# smaller delay (direct time-shifted connection vs. a chain of undelayed relays) -, and a
+# self-scheduled consumer hangs behind the join
+def gen_diamond(seed: int, tier: str = "quick") -> Dict[str, Any]:
+    rng = random.Random(sub_seed(seed, "diamond"))
+    grouped = rng.random() < 0.3
+    groups = [None, 0] if grouped else [None]
+    g = 1 if grouped else 0
+
+    def mk(sid, typ, **beh):
+        if typ == "time-based":
+            b = {"bseed": rng.randrange(1 << 30), "step_sizes": [rng.choice([1, 1, 2, 3])]}
+        else:
+            b = {"bseed": rng.randrange(1 << 30), "p_self": 0.0, "self_d": 1, "p_out": 1.0, "loop_len": 1}
+        b.update(beh)
+        s = {"sid": sid, "type": typ, "group": g if rng.random() < 0.85 else 0, "n_ent": 2, "meta_style": 0,
+             "transport": pick_weighted(rng, TRANSPORT_MIXES["mixed"]), "beh": b}
+        if typ == "event-based":
+            s["init_event"] = None
+        return s
+    zt = rng.choice(["time-based", "event-based", "hybrid"])
+    Z = mk("Z", zt) if zt == "time-based" else mk("Z", zt, p_self=1.0, self_d=rng.choice([1, 2, 3]),
+                                                  p_out=rng.choice([0.6, 1.0]))
+    if zt == "event-based":
+        Z["init_event"] = 0
+    zo = "p_out" if zt == "time-based" else "e_out"
+    M = mk("M", rng.choice(["event-based", "event-based", "hybrid"]), p_out=rng.choice([0.7, 1.0]),
+           p_self=rng.choice([0.0, 0.0, 0.4]))
+    sims = [Z, M]
+    n_relay = rng.choice([1, 1, 2])
+    conns = []
+    k_direct = rng.choice([1, 1, 2, 0])
+    conns.append({"src": 0, "se": 0, "dst": 1, "de": 0, "pairs": [[zo, "t_in"]], "shift": k_direct, "weak": False})
+    prev, prev_out = 0, zo
+    k_chain = [0] * (n_relay + 1)
+    if rng.random() < 0.3:
+        k_chain[rng.randrange(n_relay + 1)] = rng.choice([1, 2])
+    for i in range(n_relay):
+        R = mk(f"A{i}", rng.choice(["event-based", "event-based", "hybrid"]), p_out=rng.choice([1.0, 1.0, 0.6]))
+        sims.append(R)
+        conns.append({"src": prev, "se": 1 if prev == 0 else 0, "dst": len(sims) - 1, "de": 0,
+                      "pairs": [[prev_out, "t_in"]], "shift": k_chain[i], "weak": False})
+        prev, prev_out = len(sims) - 1, "e_out"
+    conns.append({"src": prev, "se": 0, "dst": 1, "de": 1, "pairs": [["e_out", "t_in"]], "shift": k_chain[n_relay],
+                  "weak": False})
+    # the consumer behind the join: self-scheduled (time-based) or triggered
+    ct = rng.choice(["time-based", "time-based", "hybrid", "event-based"])
+    C = mk("C", ct) if ct == "time-based" else mk("C", ct, p_self=rng.choice([0.0, 1.0]), p_out=0.5)
+    if ct == "event-based":
+        C["init_event"] = rng.choice([None, 0])
+    sims.append(C)
+    mo = "e_out"
+    conns.append({"src": 1, "se": 0, "dst": len(sims) - 1, "de": 0,
+                  "pairs": [[mo, "m_in" if ct == "time-based" else "t_in"]], "shift": 0, "weak": False})
+    if rng.random() < 0.3:
+        # somebody who keeps the scheduler busy independently of the diamond
+        sims.append(mk("W", "time-based"))
+    cfg = {"cache": rng.random() < 0.5, "lazy": rng.random() < 0.6, "debug": False, "mli": 100,
+           "start_seed": rng.choice([None, rng.randrange(1 << 30)]),
+           "connect_seed": rng.choice([None, rng.randrange(1 << 30)]),
+           "order_seed": rng.choice([None, rng.randrange(1 << 30)]),
+           "iteration_cost": rng.choice([0.0, 1e-5])}
+    sc = {"groups": groups, "sims": sims, "conns": conns, "until": rng.choice([3, 4, 5, 6, 8]),
+          "config": cfg, "feats": {"diamond": True}}
+    repair_cycles(sc, rng)
+    return sc
